@@ -58,7 +58,7 @@ ASSUMPTIONS = [
     "run options are only generated together with a compile target (Blackbird has no place for them otherwise); "
     "generate_code is only given uncompiled programs and eng=None",
 ]
-REQUIRED_LABELS = {"all": ["w:blackbird", "w:xir", "w:code", "tdm", "dagger", "sym:free", "sym:meas", "array_param", "select",
+REQUIRED_LABELS = {"all": ["w:blackbird", "w:xir", "w:code", "tdm", "dagger", "sym:free", "sym:meas", "array_param", "select", "mode_index_ge_10", "measured_parameter_of_mode_ge_10",
                            "dark_counts", "ctor_option", "compiled", "path:file", "path:string", "complex_param",
                            "near_pi12", "outcome:compared", "outcome:writer_rejected_or_crashed", "outcome:unloadable"]}
 
@@ -723,6 +723,10 @@ def case_labels(case, tags):
         labs.append("near_pi12")
     if case.get("hbar", 2.0) != 2.0:
         labs.append("hbar_not_2")
+    if any(m >= 10 for o in case["ops"] for m in o[2]):
+        labs.append("mode_index_ge_10")
+    if any(at[0] == "meas" and at[1] >= 10 for o in case["ops"] for p_ in o[1] for at in ast_atoms(p_)):
+        labs.append("measured_parameter_of_mode_ge_10")
     return labs
 
 
@@ -1177,6 +1181,8 @@ def hazard_ops(draw, n, hz):
             hz, atoms = "free", [["free", "a"], ["free", "b"]]
         else:
             mm = list(draw(st.permutations(list(range(n)))))
+            if n > 10 and draw(st.integers(0, 3)) > 0:
+                mm = sorted(mm, key=lambda x: x < 10)  # measured modes with two-digit indices first
             srcs = mm[:draw(st.integers(1, min(2, n - 1)))]
             out += [["MeasureHomodyne", [draw(v_ang())], [s]] for s in srcs]
             atoms = [["meas", s] for s in srcs]
@@ -1217,7 +1223,7 @@ def _finish(draw, n, ops_, writers):
 
 @st.composite
 def rt_case(draw, writers=("blackbird", "xir")):
-    n = draw(st.integers(1, 4))
+    n = draw(st.sampled_from([1, 2, 3, 4, 12, 1, 2, 3, 4]))  # 12: two-digit mode indices (q[10], measured parameter q10)
     L = draw(st.integers(1, 5))
     ops_ = []
     for _ in range(L):
